@@ -25,21 +25,62 @@ namespace c03
     return v;
   }
 
+  /// alphabet 3 of C03 ("extreme magnitudes"): the exact values with exponents cycling through denormal / huge / normal / tiny by position,
+  /// used for the operations that select or compare by magnitude or only scale single entries (no sums of entries)
+  inline void make_extreme(DenseRef& D, bool is_float)
+  {
+    const int e[4] = {is_float ? -130 : -1030, is_float ? 120 : 1000, 0, is_float ? -100 : -1000};
+    for(int i = 0; i < D.m; ++i) for(int j = 0; j < D.n; ++j) if(D.has(i, j)) D.at(i, j) = ldexpl(aval(0, i, j), e[(i + 2 * j) % 4]);
+  }
+  inline bool alphabet_applies(int op, int alphabet)
+  {
+    if(alphabet != 3) return true;
+    return op == U_SCALE || op == U_SCALE_ROWS || op == U_SCALE_COLS || op == U_DIAG || (op >= U_MAXABS && op <= U_MIN) || op == U_SHRINK;
+  }
+  /// (alphabet, scenario) variants of the element-wise operations
+  inline std::vector<Variant> uvariants(bool full)
+  {
+    std::vector<Variant> v = {{0, S_BASE}, {1, S_BASE}, {2, S_BASE}, {3, S_BASE}};
+    if(full) for(int sc : {S_CLONE_DEEP, S_CLONE_SHALLOW, S_CLONE_WEAK, S_MOVE, S_CONVERT}) v.push_back({0, sc});
+    else v.push_back({0, S_CLONE_WEAK});
+    return v;
+  }
+
   // ------------------------------------------------------------------------------------------ unary / element-wise operations
+  // scenario (lesson 3): the operand(s) are derived objects (deep/shallow/weak clone, moved, index-type round trip) of source objects that
+  // stay alive and must be unchanged; for the writing operations the target is a weak clone of a bystander that shares the layout arrays.
+  // Every operation is invoked a second time on the same objects (lesson 2).
   template<typename T>
-  void run_unary(verif::Ctx& c, const UCase& uc, const DenseRef& D0, int rep, int alphabet, const typename T::Aux& aux)
+  void run_unary(verif::Ctx& c, const UCase& uc, const DenseRef& D0, int rep, int alphabet, const typename T::Aux& aux, int scenario = S_BASE)
   {
     typedef typename T::DT DT; typedef typename T::IT IT;
-    typedef typename T::M M; typedef typename T::VL VL; typedef typename T::VR VR;
+    typedef typename T::M M; typedef typename T::VL VL; typedef typename T::VR VR; typedef typename T::MO MO;
     const std::string key = std::string(T::prefix()) + uname[uc.op];
     const LD eps = LD(std::numeric_limits<DT>::epsilon());
     const LD nan = std::numeric_limits<LD>::quiet_NaN();
+    const bool xact = alphabet_exact(alphabet);
     DenseRef D = D0;
+    if(alphabet == 3) make_extreme(D, std::is_same<DT, float>::value);
     for(auto& v : D.a) v = LD(DT(v));
     const int m = D.m, n = D.n, nnz = D.nnz();
     // row major list of the pattern
     const std::vector<std::pair<int, int>> ent = T::entries(D, aux);
     auto zero_first = [&](DenseRef& d) { if(!ent.empty()) d.at(ent[0].first, ent[0].second) = LD(0); };
+    // derived operands: sources are kept alive and re-hashed at the end
+    std::vector<std::unique_ptr<M>> src; std::vector<uint64_t> src_hash;
+    const int dk = derive_kind(scenario);
+    auto operand = [&](const DenseRef& d) -> M {
+      if(!dk) return T::build(d, rep, aux);
+      src.emplace_back(new M(T::build(d, rep, aux))); src_hash.push_back(hash_of(*src.back()));
+      return derive_matrix<M, MO>(*src.back(), dk); };
+    // target of a writing operation: in the derived scenarios a weak clone of a bystander (shared layout arrays, own values)
+    auto target = [&](const DenseRef& d) -> M {
+      if(!dk) return T::build(d, rep, aux);
+      src.emplace_back(new M(T::build(d, rep, aux))); src_hash.push_back(hash_of(*src.back()));
+      return src.back()->clone(CloneMode::Weak); };
+    auto sources_unchanged = [&]{
+      for(size_t q = 0; q < src.size(); ++q) if(hash_of(*src[q]) != src_hash[q]) { c.fail(key + " source-of-derived-object-modified", "the object an operand was cloned/moved/converted from (or the bystander sharing the layout of the target) changed"); return; } };
+    if(dk) c.count("derived_object_cases");
 
     switch(uc.op)
     {
@@ -49,18 +90,26 @@ namespace c03
       DenseRef DX(m, n), DY = D;
       for(auto& e : ent) DX.set(e.first, e.second, LD(DT(aval(alphabet, e.first + 4, e.second + 5))));
       if(uc.op == U_SCALE && !alias) for(auto& e : ent) DY.set(e.first, e.second, nan);
-      M Y = T::build(DY, rep, aux); M Xm = T::build(DX, rep, aux);
+      M Y = target(DY); M Xm = operand(DX);
       const M& X = alias ? Y : Xm;
       const uint64_t hx = hash_of(Xm), sy = hash_structure(Y);
-      if(uc.op == U_AXPY) Y.axpy(X, DT(alpha)); else Y.scale(X, DT(alpha));
-      c.check(hash_structure(Y) == sy, key + " structure-modified", "layout of the result changed");
-      c.check(hash_of(Xm) == hx, key + " x-modified", "operand x was modified");
-      const bool exact = (alphabet == 0) && sc.dyadic;
-      for(size_t k = 0; k < ent.size(); ++k)
+      const bool exact = xact && sc.dyadic;
+      std::vector<LD> cur; for(auto& e : ent) cur.push_back(D.at(e.first, e.second));
+      for(int pass = 0; pass < 2; ++pass)   // pass 1 = re-invocation on the result of pass 0
       {
-        const LD y = D.at(ent[k].first, ent[k].second), x = alias ? y : DX.at(ent[k].first, ent[k].second);
-        const LD expect = (uc.op == U_AXPY) ? y + alpha * x : alpha * x;
-        if(!near<DT>(c, key + (alias ? " x==this" : ""), T::val(Y)[k], expect, exact, 8 * eps * (fabsl(y) + fabsl(alpha * x)), "entry " + std::to_string(k))) break;
+        if(uc.op == U_AXPY) Y.axpy(X, DT(alpha)); else Y.scale(X, DT(alpha));
+        if(pass) c.count("re_invocations");
+        c.check(hash_structure(Y) == sy, key + " structure-modified", "layout of the result changed");
+        c.check(hash_of(Xm) == hx, key + " x-modified", "operand x was modified");
+        bool ok = true;
+        for(size_t k = 0; k < ent.size() && ok; ++k)
+        {
+          const LD y = cur[k], x = alias ? y : DX.at(ent[k].first, ent[k].second);
+          const LD expect = (uc.op == U_AXPY) ? y + alpha * x : alpha * x;
+          ok = near<DT>(c, key + (alias ? " x==this" : "") + (pass ? " re-invocation" : ""), T::val(Y)[k], expect, exact, 8 * eps * (fabsl(y) + fabsl(alpha * x)), "entry " + std::to_string(k));
+          cur[k] = LD(T::val(Y)[k]);
+        }
+        if(!ok) break;
       }
       break;
     }
@@ -68,91 +117,114 @@ namespace c03
     {
       const bool alias = uc.var == 1; const bool rows = (uc.op == U_SCALE_ROWS);
       DenseRef DY = D; if(!alias) for(auto& e : ent) DY.set(e.first, e.second, nan);
-      M Y = T::build(DY, rep, aux); M Xm = T::build(D, rep, aux);
+      M Y = target(DY); M Xm = operand(D);
       const M& X = alias ? Y : Xm;
       std::vector<LD> sf; for(int i = 0; i < (rows ? m : n); ++i) sf.push_back(LD(DT(sval(alphabet, i))));
       VL sl = T::make_l(aux); VR sr = T::make_r(aux); if(rows) vfill(sl, sf); else vfill(sr, sf);
       const auto ssl = vflat(sl); const auto ssr = vflat(sr); const uint64_t hx = hash_of(Xm), sy = hash_structure(Y);
-      if(rows) Y.scale_rows(X, sl); else Y.scale_cols(X, sr);
-      c.check(hash_structure(Y) == sy, key + " structure-modified", "layout of the result changed");
-      c.check(hash_of(Xm) == hx && same_bits(ssl, vflat(sl)) && same_bits(ssr, vflat(sr)), key + " operand-modified", "operand x or s was modified");
-      for(size_t k = 0; k < ent.size(); ++k)
+      std::vector<LD> cur; for(auto& e : ent) cur.push_back(D.at(e.first, e.second));
+      for(int pass = 0; pass < 2; ++pass)
       {
-        const LD x = D.at(ent[k].first, ent[k].second), f = sf[size_t(rows ? ent[k].first : ent[k].second)];
-        if(!near<DT>(c, key + (alias ? " x==this" : ""), T::val(Y)[k], x * f, alphabet == 0, 4 * eps * fabsl(x * f), "entry " + std::to_string(k))) break;
+        if(rows) Y.scale_rows(X, sl); else Y.scale_cols(X, sr);
+        if(pass) c.count("re_invocations");
+        c.check(hash_structure(Y) == sy, key + " structure-modified", "layout of the result changed");
+        c.check(hash_of(Xm) == hx && same_bits(ssl, vflat(sl)) && same_bits(ssr, vflat(sr)), key + " operand-modified", "operand x or s was modified");
+        bool ok = true;
+        for(size_t k = 0; k < ent.size() && ok; ++k)
+        {
+          const LD x = alias ? cur[k] : D.at(ent[k].first, ent[k].second), f = sf[size_t(rows ? ent[k].first : ent[k].second)];
+          ok = near<DT>(c, key + (alias ? " x==this" : "") + (pass ? " re-invocation" : ""), T::val(Y)[k], x * f, xact && !(alias && pass && alphabet == 3), 4 * eps * fabsl(x * f), "entry " + std::to_string(k));
+          cur[k] = LD(T::val(Y)[k]);
+        }
+        if(!ok) break;
       }
       break;
     }
     case U_FROB:
     {
-      M A = T::build(D, rep, aux); const uint64_t h = hash_of(A);
-      const DT got = A.norm_frobenius();
+      M A = operand(D); const uint64_t h = hash_of(A);
       LD s = 0; for(auto& e : ent) s += D.at(e.first, e.second) * D.at(e.first, e.second);
-      near<DT>(c, key, got, sqrtl(s), nnz == 0, LD(nnz + 4) * eps * sqrtl(s), "norm");
+      for(int pass = 0; pass < 2; ++pass)
+      {
+        const DT got = A.norm_frobenius();
+        if(pass) c.count("re_invocations");
+        if(!near<DT>(c, key + (pass ? " re-invocation" : ""), got, sqrtl(s), nnz == 0, LD(nnz + 4) * eps * sqrtl(s), "norm")) break;
+      }
       c.check(hash_of(A) == h, key + " matrix-modified", "matrix was modified");
       break;
     }
     case U_RN2: case U_RN2SQR: case U_RN2SQR_S: case U_LUMP:
     {
-      M A = T::build(D, rep, aux); const uint64_t h = hash_of(A);
+      M A = operand(D); const uint64_t h = hash_of(A);
       VL r = T::make_l(aux); vfill(r, std::vector<LD>(size_t(m), nan));
       VR s = T::make_r(aux); std::vector<LD> sf; for(int j = 0; j < n; ++j) sf.push_back(LD(DT(sval(alphabet, j)))); vfill(s, sf);
-      if(uc.op == U_RN2) A.row_norm2(r);
-      else if(uc.op == U_RN2SQR) A.row_norm2sqr(r);
-      else if(uc.op == U_RN2SQR_S) A.row_norm2sqr(r, s);
-      else if(uc.var == 0) A.lump_rows(r);
-      else r = A.lump_rows();
-      const auto rf = vflat(r);
-      if(!c.check(rf.size() == size_t(m), key + " result-length", "result vector has the wrong length")) break;
-      for(int i = 0; i < m; ++i)
+      for(int pass = 0; pass < 2; ++pass)   // pass 1: into the vector that already holds the result
       {
-        LD e = 0, ae = 0;
-        for(int j = 0; j < n; ++j) if(D.has(i, j))
+        if(uc.op == U_RN2) A.row_norm2(r);
+        else if(uc.op == U_RN2SQR) A.row_norm2sqr(r);
+        else if(uc.op == U_RN2SQR_S) A.row_norm2sqr(r, s);
+        else if(uc.var == 0) A.lump_rows(r);
+        else r = A.lump_rows();
+        if(pass) c.count("re_invocations");
+        const auto rf = vflat(r);
+        if(!c.check(rf.size() == size_t(m), key + " result-length", "result vector has the wrong length")) break;
+        bool ok = true;
+        for(int i = 0; i < m && ok; ++i)
         {
-          const LD a = D.at(i, j);
-          const LD t = (uc.op == U_LUMP) ? a : (uc.op == U_RN2SQR_S ? sf[size_t(j)] * a * a : a * a);
-          e += t; ae += fabsl(t);
+          LD e = 0, ae = 0;
+          for(int j = 0; j < n; ++j) if(D.has(i, j))
+          {
+            const LD a = D.at(i, j);
+            const LD t = (uc.op == U_LUMP) ? a : (uc.op == U_RN2SQR_S ? sf[size_t(j)] * a * a : a * a);
+            e += t; ae += fabsl(t);
+          }
+          bool exact = xact;
+          if(uc.op == U_RN2) { e = sqrtl(e); ae = e; exact = (D.row_len(i) == 0); }
+          ok = near<DT>(c, key + (pass ? " re-invocation" : ""), rf[size_t(i)], e, exact, LD(D.row_len(i) + 4) * eps * ae, "row " + std::to_string(i));
         }
-        bool exact = (alphabet == 0);
-        if(uc.op == U_RN2) { e = sqrtl(e); ae = e; exact = (D.row_len(i) == 0); }
-        if(!near<DT>(c, key, rf[size_t(i)], e, exact, LD(D.row_len(i) + 4) * eps * ae, "row " + std::to_string(i))) break;
+        if(!ok) break;
       }
       c.check(hash_of(A) == h, key + " matrix-modified", "matrix was modified");
       break;
     }
     case U_DIAG:
     {
-      M A = T::build(D, rep, aux); const uint64_t h = hash_of(A);
-      const int nbr = T::block_rows(aux), bs = (nbr ? m / nbr : 1);
-      DenseVector<IT, IT> idx = A.extract_diag_indices();
-      bool ok = c.check(idx.size() == Index(nbr), key + "_indices length", "wrong length");
-      for(int I = 0; I < nbr && ok; ++I)
+      M A = operand(D); const uint64_t h = hash_of(A);
+      const int nbr = T::block_rows(aux);
+      for(int pass = 0; pass < 2; ++pass)
       {
-        const Index expect = T::diag_index(D, aux, I);
-        ok = c.check(Index(idx.elements()[I]) == expect, key + "_indices", [&]{ return "row " + std::to_string(I) + ": got " + std::to_string(idx.elements()[I]) + " expected " + std::to_string(expect); });
+        // pass 0: extract_diag() is the FIRST access of the fresh object (lesson 6); pass 1: after extract_diag_indices, into filled vectors
+        VL d3 = A.extract_diag();
+        DenseVector<IT, IT> idx = A.extract_diag_indices();
+        if(pass) c.count("re_invocations");
+        bool ok = c.check(idx.size() == Index(nbr), key + "_indices length", "wrong length");
+        for(int I = 0; I < nbr && ok; ++I)
+        {
+          const Index expect = T::diag_index(D, aux, I);
+          ok = c.check(Index(idx.elements()[I]) == expect, key + "_indices", [&]{ return "row " + std::to_string(I) + ": got " + std::to_string(idx.elements()[I]) + " expected " + std::to_string(expect); });
+        }
+        VL d1 = T::make_l(aux), d2 = T::make_l(aux); vfill(d1, std::vector<LD>(size_t(m), nan)); vfill(d2, std::vector<LD>(size_t(m), nan));
+        if(ok) A.extract_diag(d1, idx);
+        A.extract_diag(d2);
+        const auto f1 = vflat(d1), f2 = vflat(d2), f3 = vflat(d3);
+        c.check(f3.size() == size_t(m), key + " result-length", "wrong length");
+        for(int i = 0; i < m && ok && f3.size() == size_t(m); ++i)
+        {
+          // a diagonal entry exists iff its (block) is stored; inside a stored block every entry is in the pattern
+          const LD e = D.has(i, i) ? D.at(i, i) : LD(0);
+          ok = near<DT>(c, key + "(diag,indices)", f1[size_t(i)], e, true, 0, "row " + std::to_string(i))
+            && near<DT>(c, key + "(diag)", f2[size_t(i)], e, true, 0, "row " + std::to_string(i))
+            && near<DT>(c, key + "()", f3[size_t(i)], e, true, 0, "row " + std::to_string(i));
+        }
+        if(!ok) break;
       }
-      VL d1 = T::make_l(aux), d2 = T::make_l(aux); vfill(d1, std::vector<LD>(size_t(m), nan)); vfill(d2, std::vector<LD>(size_t(m), nan));
-      if(ok) A.extract_diag(d1, idx);
-      A.extract_diag(d2);
-      VL d3 = A.extract_diag();
-      const auto f1 = vflat(d1), f2 = vflat(d2), f3 = vflat(d3);
-      c.check(f3.size() == size_t(m), key + " result-length", "wrong length");
-      for(int i = 0; i < m && ok && f3.size() == size_t(m); ++i)
-      {
-        // a diagonal entry exists iff its (block) is stored; inside a stored block every entry is in the pattern
-        const LD e = D.has(i, i) ? D.at(i, i) : LD(0);
-        ok = near<DT>(c, key + "(diag,indices)", f1[size_t(i)], e, true, 0, "row " + std::to_string(i))
-          && near<DT>(c, key + "(diag)", f2[size_t(i)], e, true, 0, "row " + std::to_string(i))
-          && near<DT>(c, key + "()", f3[size_t(i)], e, true, 0, "row " + std::to_string(i));
-      }
-      (void)bs;
       c.check(hash_of(A) == h, key + " matrix-modified", "matrix was modified");
       break;
     }
     case U_MAXABS: case U_MINABS: case U_MAX: case U_MIN:
     {
       if(uc.var == 1) zero_first(D);
-      M A = T::build(D, rep, aux); const uint64_t h = hash_of(A);
+      M A = operand(D); const uint64_t h = hash_of(A);
       LD e = 0; bool first = true;
       for(auto& en : ent)
       {
@@ -161,8 +233,12 @@ namespace c03
         if(first || ((uc.op == U_MAXABS || uc.op == U_MAX) ? t > e : t < e)) e = t;
         first = false;
       }
-      const DT got = (uc.op == U_MAXABS) ? A.max_abs_element() : (uc.op == U_MINABS) ? A.min_abs_element() : (uc.op == U_MAX) ? A.max_element() : A.min_element();
-      near<DT>(c, key + (uc.var ? " stored-zero" : ""), got, e, true, 0, "value");
+      for(int pass = 0; pass < 2; ++pass)
+      {
+        const DT got = (uc.op == U_MAXABS) ? A.max_abs_element() : (uc.op == U_MINABS) ? A.min_abs_element() : (uc.op == U_MAX) ? A.max_element() : A.min_element();
+        if(pass) c.count("re_invocations");
+        if(!near<DT>(c, key + (uc.var ? " stored-zero" : "") + (pass ? " re-invocation" : ""), got, e, true, 0, "value")) break;
+      }
       c.check(hash_of(A) == h, key + " matrix-modified", "matrix was modified");
       break;
     }
@@ -178,26 +254,44 @@ namespace c03
       else if(t == 1) { thr = av.back(); for(LD x : av) if(x > 0) { thr = x; break; } }
       else if(t == 2) thr = av[av.size() / 2];
       else if(t == 3) thr = av.back();
-      else if(t == 4) thr = 2 * av.back() + 1;
-      M A = T::build(D, rep, aux);
-      A.shrink(DT(thr));
+      else if(t == 4) thr = (alphabet == 3) ? av.back() * 2 : 2 * av.back() + 1;
+      M A = operand(D);
       std::vector<std::pair<int, int>> keep; for(auto& en : ent) if(DT(fabsl(D.at(en.first, en.second))) >= DT(thr)) keep.push_back(en);
       const std::string k2 = key + (t == 0 ? " eps=0" : t == 4 ? " eps>max" : " eps=|entry|");
-      bool ok = c.check(A.rows() == Index(m) && A.columns() == Index(n), k2 + " dimensions", "dimensions changed")
-        && c.check(A.used_elements() == Index(keep.size()), k2 + " used_elements", [&]{ return "kept " + std::to_string(A.used_elements()) + " entries, expected " + std::to_string(keep.size()); });
-      if(ok && !keep.empty())
+      for(int pass = 0; pass < 2; ++pass)   // shrink is idempotent: pass 1 shrinks the shrunk matrix again
       {
-        ok = c.check(csr_valid(A), k2 + " invalid-layout", "row_ptr/col_ind of the shrunk matrix are not a valid CSR layout");
-        for(size_t k = 0; k < keep.size() && ok; ++k)
+        if(pass && keep.empty()) break;     // an entry-free result cannot be shrunk again (recorded finding: entry-free operand shrink)
+        A.shrink(DT(thr));
+        if(pass) c.count("re_invocations");
+        const std::string k3 = k2 + (pass ? " re-invocation" : "");
+        bool ok = c.check(A.rows() == Index(m) && A.columns() == Index(n), k3 + " dimensions", "dimensions changed")
+          && c.check(A.used_elements() == Index(keep.size()), k3 + " used_elements", [&]{ return "kept " + std::to_string(A.used_elements()) + " entries, expected " + std::to_string(keep.size()); });
+        if(ok && !keep.empty())
         {
-          ok = c.check(Index(A.col_ind()[k]) == Index(keep[k].second) && Index(A.row_ptr()[keep[k].first]) <= Index(k) && Index(k) < Index(A.row_ptr()[keep[k].first + 1]), k2 + " pattern", "wrong entry kept")
-            && near<DT>(c, k2 + " value", T::val(A)[k], D.at(keep[k].first, keep[k].second), true, 0, "entry " + std::to_string(k));
+          ok = c.check(csr_valid(A), k3 + " invalid-layout", "row_ptr/col_ind of the shrunk matrix are not a valid CSR layout");
+          for(size_t k = 0; k < keep.size() && ok; ++k)
+          {
+            ok = c.check(Index(A.col_ind()[k]) == Index(keep[k].second) && Index(A.row_ptr()[keep[k].first]) <= Index(k) && Index(k) < Index(A.row_ptr()[keep[k].first + 1]), k3 + " pattern", "wrong entry kept")
+              && near<DT>(c, k3 + " value", A.val()[k], D.at(keep[k].first, keep[k].second), true, 0, "entry " + std::to_string(k));
+          }
+        }
+        if(!ok) break;
+      }
+      // derived result (lesson 3): the shrunk matrix must behave like the dense matrix restricted to the kept entries
+      if(!keep.empty())
+      {
+        VL lr = T::make_l(aux); vfill(lr, std::vector<LD>(size_t(m), nan)); A.lump_rows(lr);
+        const auto lf = vflat(lr);
+        for(int i = 0; i < m; ++i)
+        {
+          LD e = 0, ae = 0; for(auto& kp : keep) if(kp.first == i) { e += D.at(kp.first, kp.second); ae += fabsl(D.at(kp.first, kp.second)); }
+          if(!near<DT>(c, k2 + " lump_rows-of-result", lf[size_t(i)], e, xact && alphabet != 3, LD(n + 4) * eps * ae, "row " + std::to_string(i))) break;
         }
       }
       break;
     }
     default: break;
     }
+    sources_unchanged();
   }
-
 }
